@@ -13,24 +13,31 @@ sys.path.insert(0, os.path.join(vf.VERIF, "lib"))
 import trie_gen as tg  # noqa: E402
 
 META = {
-    "text": "28 theorems (Coq, no axioms, any hash H). FULL, every height and sorted batch: Get after Update / after "
+    "text": "33 theorems (Coq, no axioms, any hash H). FULL, every height and sorted batch: Get after Update / after "
             "any history = plain map; canonical shape preserved and unique, hence tree and root depend only on the resulting map (history "
             "independence, no collision caveat; absent deletes = identity); literal maybeAddShortcutToKV/splitKeys = abstract forms. "
             "FULL with an explicit `\\/ hash_break H` (collision or DefaultLeaf shift pair): root binding; node-store persistence "
             "(old roots readable, reopen = committed tree); REFINEMENT of the literal 31-slot batch layer (loadChildren, leaf/interiorHash, "
             "moveUpShortcut, storeNode/deleteOldNode, updatedNodes, liveCache for any CacheHeightLimit with in-place aliasing, "
-            "parse/serialize, Commit) against the tree-level update; cache reads = uncached reads; parallel children touch disjoint slots. PARTIAL: the store theorems are partial-correctness (a missing batch is a load error); that no needed batch "
+            "parse/serialize, Commit) against the tree-level update; cache reads = uncached reads; parallel children touch disjoint slots; "
+            "statedb level (account trie over per-contract storage tries, state record abstract): the storage root handed into the account leaf "
+            "is the root of the updated storage trie (emptied storage = empty root), per-contract map semantics through the leaf, state root "
+            "determined by the (account, storage) contents. PARTIAL: the store theorems are partial-correctness (a missing batch is a load error); that no needed batch "
             "is garbage-collected is not proved (false for two Updates before one Commit: C10:node-lost-height-byte-wrap). REFUTED with "
             "witnesses (Revert, dead code in the node): keeps older roots (C10:revert-older-root-lost), restores the target "
             "(C10:revert-target-lost-height-byte-wrap). Every run: the real Trie (SHA-256 and a toy hash "
             "shared by Coq/Go/OCaml) on prefix-colliding histories incl. CacheHeightLimit values and re-pointing at earlier "
             "roots; roots, Get, updatedNodes/liveCache dumps and Revert's deleted keys equal the model's byte for byte (extracted + vm_compute "
-            "sample); predicates: Get = last write, root = fresh one-batch root, every committed root reopens, Stash, race detector.",
+            "sample); predicates: Get = last write, root = fresh one-batch root, every committed root reopens, Stash, race detector; statedb level: blocks applied the node's way (fresh StateDB on the parent root, "
+            "one Update, one Commit) incl. blocks emptying/refilling a contract: fresh-instance reads = map per contract at every root, storage "
+            "and state roots = extracted model (SHA-256) and = one-block rebuild, long-lived instance agrees.",
     "note": "Trusted: Coq kernel/vm_compute (primitive Uint63 only in ToyHash, evaluation only), extraction (ExtrOcamlBasic) + OCaml driver for "
             "volume, Go toolchain and race detector, engine harness/engines/trie, generator lib/trie_gen.py, memory DB. No axioms, no translator. "
             "Modelled, not verified: batches have value semantics except the liveCache aliasing (histories with a Commit after every Update, what "
             "the node does); goroutines run left-then-right (disjointness proved, schedules only observed); Stash/LoadCache only exercised "
-            "(CacheHeightLimit is never set by the node: LoadCache is a no-op). Assumptions: strictly sorted non-empty batches of 32-byte keys "
+            "(CacheHeightLimit is never set by the node: LoadCache is a no-op). Statedb level: types.State is abstract (encoding, StorageRoot get/set as parameters); one staged contract per model step (the "
+            "implementation puts all accounts of a block in one trie batch; equal by history independence); the check encodes State{Nonce,StorageRoot} "
+            "itself. Assumptions: strictly sorted non-empty batches of 32-byte keys "
             "and 32-byte values or DefaultLeaf (stateBuffer.export), H returns 32 bytes.",
     "technique": "Coq proof over Gallina trie + batch-storage models, refinement, extracted-model and vm_compute correspondence, direct predicates on real runs",
 }
